@@ -8,7 +8,8 @@ from .. import ioarch, iocheck, iogen
 from ..common import VERIF
 
 REQUIRED = ["no_T_only_defaults", "no_T_only_defaults_archive", "untrusted_name_reported", "subsetSorted_sound", "disjointSorted_sound",
-            "defaults_in_families", "defaults_not_dangerous", "table_vouched"]
+            "defaults_in_families", "defaults_not_dangerous", "table_vouched",
+            "registries_filtered", "foreign_registration_not_default"]
 
 
 def coherent_states(ctx, fx):
